@@ -42,6 +42,9 @@ CLAIMED.update({
  "C16": C("property-based testing: generated graphs; oracle = vertex-deletion reachability (dominance relation, articulation points) by brute force",
           "dominators::simple_fast for every root on 6 encodings (all five accessors) and articulation_points on 5 encodings compared with the path-based definitions.",
           "the deletion-reachability helpers in props/c16.rs", "DESIGN.md section 5, C16"),
+ "C20": C("property-based testing: seven generated-input sub-checks; oracles = subset enumeration (cliques), validity predicates (colouring, feedback arcs), Warshall closure/reduction, DFS path enumeration, Dreyfus-Wagner optimum + tree predicate (Steiner), algebraic laws and relabeling equivariance (PageRank)",
+          "maximal_cliques, dsatur_coloring, greedy_feedback_arc_set, dag_to_toposorted_adjacency_list + dag_transitive_reduction_closure, all_simple_paths, steiner_tree and page_rank each compared with its defining specification on random graphs of its documented domain, several storage types incl. vacancies.",
+          "the brute-force oracles in props/c20.rs", "DESIGN.md section 5, C20"),
 })
 PLANNED = {}
 
